@@ -81,6 +81,59 @@ theorem worker_takes_head (s : St) (i : Nat) (w : Work) (f : Nat) (fs : List Nat
   · simp [relook, hq, loopTop, takeNext, hlt]
   · simp [relook, hq, loopTop, takeNext, startedOf]
 
+/-- **never stuck**: whenever work is queued, a step of the library itself is enabled that leads towards
+it — a worker's first look at the queue, its return from `Wait` after a signal, the end of the callback
+it is running (after which it looks at the queue again) — or a submitter is about to signal. Together
+with `worker_takes_head` this is the progress half of "every accepted callback is started": no reachable
+state has queued work and nobody who will ever look at it. -/
+theorem never_stuck (acts : List Act) (s : St) (h : run init acts = some s)
+    (hn : ∀ n, Act.serve n ∈ acts → 1 ≤ n) (q : List Work) (hq : s.wq = some q) (hne : q ≠ []) :
+    (∃ i, (step s (.wStart i)).isSome ∨ (step s (.wWake i)).isSome ∨ (step s (.wDone i)).isSome) ∨
+    (∃ e ∈ s.inflight, e.needSignal = true) := by
+  rcases no_lost_wakeup acts s h hn q hq hne with ⟨i, ws, hi, hw⟩ | he
+  · refine Or.inl ⟨i, ?_⟩
+    rcases hw with rfl | rfl | ⟨w, c, rfl⟩
+    · left; simp [step, hi]
+    · right; left; simp [step, hi]
+    · right; right
+      simp only [step, hi]
+      cases w.pending <;> simp
+  · exact Or.inr he
+
+/-- queued work items always hold a callback: the worker never pops an empty item -/
+theorem queued_items_nonempty (acts : List Act) (s : St) (h : run init acts = some s) (q : List Work)
+    (hq : s.wq = some q) : ∀ w ∈ q, w.pending ≠ [] :=
+  QNE.reachable h q hq
+
+/-- **one step to the next callback**: in every reachable state with queued work and a worker that is
+going to look (idle, signalled, or finishing its callback), that worker's very next own step starts a
+callback — the head of the queue, or the next one of the item it owns -/
+theorem next_step_starts_a_callback (acts : List Act) (s : St) (h : run init acts = some s)
+    (q : List Work) (hq : s.wq = some q) (hne : q ≠ []) (i : Nat) (ws : WState)
+    (hi : s.workers[i]? = some ws)
+    (hw : ws = WState.idle ∨ ws = WState.waiting true ∨ ∃ w c, ws = WState.running w c) :
+    ∃ a s', (a = Act.wStart i ∨ a = Act.wWake i ∨ a = Act.wDone i) ∧ step s a = some s' ∧
+      s'.started.length = s.started.length + 1 := by
+  have hlt : i < s.workers.length := (List.getElem?_eq_some_iff.mp hi).1
+  obtain ⟨w0, rest, rfl⟩ := List.exists_cons_of_ne_nil hne
+  have hp := QNE.reachable h _ hq w0 List.mem_cons_self
+  obtain ⟨f, fs, hf⟩ := List.exists_cons_of_ne_nil hp
+  have hw0 : w0 = ⟨w0.wid, f :: fs⟩ := by cases w0; simp_all
+  rw [hw0] at hq
+  rcases hw with rfl | rfl | ⟨w, c, rfl⟩
+  · refine ⟨.wStart i, relook s i, Or.inl rfl, by rw [step_wStart, if_pos hi], ?_⟩
+    simp [relook, hq, loopTop_head, setWorker, startedOf]
+  · refine ⟨.wWake i, relook s i, Or.inr (Or.inl rfl), by rw [step_wWake, if_pos hi], ?_⟩
+    simp [relook, hq, loopTop_head, setWorker, startedOf]
+  · cases hpw : w.pending with
+    | cons g gs =>
+      refine ⟨.wDone i, next s i w c g gs, Or.inr (Or.inr rfl), by simp [step, hi, hpw, next], ?_⟩
+      simp [next, setWorker, startedOf]
+    | nil =>
+      refine ⟨.wDone i, relook (finish s i w c) i, Or.inr (Or.inr rfl), ?_, ?_⟩
+      · rw [relook_finish]; simp [step, hi, hpw]
+      · rw [relook_finish]; simp [hq, loopTop_head, setWorker, startedOf]
+
 /-! ## non-vacuity: a group going idle and busy again keeps its order -/
 example : ∃ s, run init [.serve 1, .subCheck 1 7 1 true, .subLock 1, .subSignal 1, .wStart 0, .wDone 0,
     .subCheck 1 7 2 true, .subLock 1, .subSignal 1, .wWake 0] = some s ∧ cbsOf 7 s.started = [1, 2] := by
